@@ -1,44 +1,214 @@
 (* Crash points between the write and the reply (C01 quantifies over
    crash_points).  A [lost] step updates the store exactly like a delivered one
-   but its reply never reaches the client, so it is not logged as a grant.
-   With such steps C01_no_double_allocation is FALSE for the faithful model:
-   a renewal shortly after the previous one shortens the server's record
-   (3 x elapsed < remaining), and if that reply is lost the client still relies
-   on the longer lease it was told last. *)
+   but its reply never reaches the client, so it is not logged as a grant
+   (Model/DhcpPool.v: step_lossy, run_lossy, wf_lossy).
+
+   Before the repair of observation O1 the statement was FALSE for such
+   histories (a renewal shortly after the previous one shortened the server's
+   record below what the client had last been told).  With the repaired lease
+   time -- a renewal is granted at least the remainder of the current lease --
+   the server's record of an address never ends before the latest expiry the
+   holding client was told, and the theorem holds for lossy histories as long
+   as the configured maximum does not change inside the history (a lowered
+   maximum would, correctly, cut the remainder). *)
 From Erbium Require Import Lib.Base Model.DhcpPool Proofs.DhcpPool.
 
-Definition step_lossy (s : state) (el : event * bool) : option state :=
-  let '(e, lost) := el in
-  match step s e with
-  | Some (d', log') => Some (d', if lost then snd s else log')
-  | None => None
-  end.
+Definition RowsOK (M now : N) (d : db) : Prop :=
+  forall r, In r d -> r_start r <= now /\ r_expiry r <= r_start r + M.
 
-Fixpoint run_lossy_from (s : state) (h : list (event * bool)) : option state :=
-  match h with
-  | [] => Some s
-  | el :: h' => match step_lossy s el with Some s' => run_lossy_from s' h' | None => None end
-  end.
-Definition run_lossy (h : list (event * bool)) : option state := run_lossy_from ([], []) h.
+Definition CoveredL (now : N) (d : db) (log : list grant) : Prop :=
+  forall c x g, newest_grant log c x = Some g ->
+    (exists r, In r d /\ r_addr r = x /\ r_client r = c /\ g_expiry g <= r_expiry r)
+    \/ g_expiry g <= now.
 
-Definition cr_a : list N := [1].
-Definition cr_b : list N := [2].
-Definition cr_op c := {| o_client := c; o_req := None; o_pool := [10]; o_min := 300; o_max := 86400 |}.
-Definition crash_witness : list (event * bool) :=
-  [ (EAlloc (cr_op cr_a) 1000 1000 (Granted 10 300 NewAddress), false);
-    (EAlloc (cr_op cr_a) 1150 1150 (Granted 10 450 ReusingLease), false);   (* told: until 1600 *)
-    (EAlloc (cr_op cr_a) 1151 1151 (Granted 10 300 ReusingLease), true);    (* record: until 1451; reply lost *)
-    (EAlloc (cr_op cr_b) 1452 1452 (Granted 10 300 NewAddress), false) ].
+Definition LInv (M now : N) (d : db) (log : list grant) : Prop :=
+  Inv d /\ Forall (fun g => g_time g <= now) log /\ RowsOK M now d /\ CoveredL now d log /\ NoDouble log.
 
-Lemma lost_reply_refuted :
-  exists h d log,
-    wf_history (map fst h) = true /\ run_lossy h = Some (d, log) /\
-    exists a b x t, a <> b /\ holds log a x t /\ holds log b x t.
+Lemma linv_later : forall M now now' d log, now <= now' -> LInv M now d log -> LInv M now' d log.
 Proof.
-  exists crash_witness. eexists. eexists. split; [reflexivity|]. split; [vm_compute; reflexivity|].
-  exists cr_a, cr_b, 10, 1500. split; [discriminate|]. split.
-  - eexists. split; [vm_compute; reflexivity|]. vm_compute. reflexivity.
-  - eexists. split; [vm_compute; reflexivity|]. vm_compute. reflexivity.
+  intros M now now' d log L [I [F [R [C N]]]]. repeat split; try assumption.
+  - eapply Forall_impl; [|exact F]. simpl. intros. lia.
+  - destruct (R r H). lia.
+  - destruct (R r H). assumption.
+  - intros c x g G. destruct (C c x g G) as [H|H]; [left; assumption|right; lia].
+Qed.
+
+Lemma clamp_ge : forall o v, v <= o_max o -> v <= clamp o v.
+Proof. intros. unfold clamp. lia. Qed.
+
+(* the heart of the repair: whatever row sat on the granted address, the new
+   record does not end before it did *)
+Lemma grant_covers_old : forall M now d o t1 t2 ip s k d',
+  Inv d -> RowsOK M now d -> now <= t1 -> t1 <= t2 -> t2 < pow2 32 -> o_max o = M ->
+  alloc_ok d o t1 t2 (Granted ip s k) = Some d' ->
+  forall r, In r d -> r_addr r = ip -> r_expiry r <= t2 + s.
+Proof.
+  intros M now d o t1 t2 ip s k d' I R L1 L2 L3 EM H r Hr Ea.
+  assert (T : t1 < pow2 32) by lia.
+  destruct (list_eq_dec N.eq_dec (r_client r) (o_client o)) as [Ec|Ec].
+  2:{ pose proof (grant_respects_holder _ _ _ _ _ _ _ _ I T H r Hr Ea Ec). lia. }
+  unfold alloc_ok in H. rewrite (cast_small _ T) in H.
+  destruct k; brk H;
+    repeat match goal with
+    | E : (_ && _) = true |- _ => apply andb_true_iff in E; destruct E
+    end.
+  - (* New: the client has no row in the pool, but r is one *)
+    exfalso.
+    match goal with E : none_in_pool _ (my_rows d o) = true |- _ =>
+      apply (proj1 (none_in_pool_spec _ _) E r) end.
+    apply in_my_rows; auto. rewrite Ea. apply in_pool_spec. assumption.
+  - (* Reusing: r is the row taken; the lease time is at least its remainder *)
+    match goal with E : find_addr ip _ = Some ?r0 |- _ =>
+      apply find_addr_some in E; destruct E as [E1 E2];
+      apply in_cur_rows in E1; destruct E1 as [E1 [E3 E4]];
+      assert (r0 = r) by (apply (nodup_unique d); [exact I|assumption|assumption|congruence]); subst r0
+    end.
+    match goal with E : (s =? clamp o _) = true |- _ => apply N.eqb_eq in E; subst s end.
+    destruct (R r Hr) as [R1 R2].
+    assert (V : r_expiry r - t1 <= reuse_secs t1 r) by (unfold reuse_secs, sat_sub; lia).
+    assert (B : r_expiry r - t1 <= o_max o) by lia.
+    assert (C : r_expiry r - t1 <= clamp o (reuse_secs t1 r)) by (unfold clamp in *; lia).
+    lia.
+  - (* Requested *)
+    match goal with E : req_ok d o t1 ip = true |- _ =>
+      unfold req_ok in E; apply andb_true_iff in E; destruct E as [_ E];
+      pose proof (proj1 (free_spec _ _ _) E r Hr Ea) end.
+    lia.
+  - (* Revived: no current row of the client in the pool, so r has expired *)
+    match goal with E : find_addr ip _ = Some ?r0 |- _ =>
+      apply find_addr_some in E; destruct E as [E1 E2] end.
+    match goal with E : best_in_pool _ _ _ _ = true |- _ =>
+      unfold best_in_pool in E; apply andb_true_iff in E; destruct E as [E _]; apply in_pool_spec in E end.
+    destruct (N.lt_ge_cases t1 (r_expiry r)) as [Lt|Ge]; [|lia].
+    exfalso.
+    match goal with E : none_in_pool _ (cur_rows d o t1) = true |- _ =>
+      apply (proj1 (none_in_pool_spec _ _) E r) end.
+    apply in_cur_rows; auto. congruence.
+Qed.
+
+Lemma old_holder_expired_l : forall M now d log o t1 t2 ip s k d' b t,
+  LInv M now d log -> now <= t1 -> t1 <= t2 -> t2 < pow2 32 ->
+  alloc_ok d o t1 t2 (Granted ip s k) = Some d' ->
+  b <> o_client o -> t2 <= t -> holds log b ip t -> False.
+Proof.
+  intros M now d log o t1 t2 ip s k d' b t [I [F [R [C N]]]] L1 L2 L3 H NB LT [g [G E]].
+  rewrite last_is_newest in G.
+  2:{ eapply Forall_impl; [|exact F]. simpl. intros. lia. }
+  destruct (C _ _ _ G) as [[r [R1 [R2 [R3 R4]]]]|G4].
+  - assert (r_expiry r < t1).
+    { eapply grant_respects_holder; try eassumption. lia. congruence. }
+    lia.
+  - lia.
+Qed.
+
+Lemma grant_step_l : forall M now d log o t1 t2 ip s k d' (lost : bool),
+  LInv M now d log -> now <= t1 -> t1 <= t2 -> t2 + M < pow2 32 ->
+  o_min o <= o_max o -> o_max o = M ->
+  alloc_ok d o t1 t2 (Granted ip s k) = Some d' ->
+  LInv M t2 d' (if lost then log else grant_of o t2 ip s :: log).
+Proof.
+  intros M now d log o t1 t2 ip s k d' lost LI L1 L2 L3 Lm EM H.
+  pose proof LI as [I [F [R [C N]]]].
+  pose proof (granted_store _ _ _ _ _ _ _ _ H) as ED.
+  pose proof (lease_bounds _ _ _ _ _ _ _ _ H Lm) as [_ SB].
+  assert (L3' : t2 < pow2 32) by lia.
+  pose proof (grant_covers_old M now d o t1 t2 ip s k d' I R L1 L2 L3' EM H) as GC.
+  assert (NE : r_expiry (new_row o ip t2 s) = t2 + s) by (simpl; apply cast_small; lia).
+  assert (NS : r_start (new_row o ip t2 s) = t2) by (simpl; apply cast_small; lia).
+  assert (Ftime : Forall (fun g => g_time g <= t2) log).
+  { eapply Forall_impl; [|exact F]. simpl. intros. lia. }
+  assert (Rows : RowsOK M t2 d').
+  { subst d'. intros r Hr. apply in_upsert in Hr. destruct Hr as [Hr|[Hr _]].
+    - subst r. rewrite NE, NS. lia.
+    - destruct (R r Hr). lia. }
+  (* the part of CoveredL that does not depend on whether the reply is logged *)
+  assert (Old : forall c x g, newest_grant log c x = Some g ->
+                (c = o_client o -> x = ip -> lost = true) ->
+                (exists r, In r d' /\ r_addr r = x /\ r_client r = c /\ g_expiry g <= r_expiry r)
+                \/ g_expiry g <= t2).
+  { intros c x g G _. destruct (C _ _ _ G) as [[r [R1 [R2 [R3 R4]]]]|G4]; [|right; lia].
+    destruct (N.eq_dec x ip) as [E|E].
+    - rewrite E in *. clear E.
+      destruct (list_eq_dec N.eq_dec c (o_client o)) as [Ec|Ec].
+      + left. exists (new_row o ip t2 s). subst d'. split. apply in_upsert. left. reflexivity.
+        split. reflexivity. split. simpl. congruence.
+        rewrite NE. pose proof (GC r R1 R2). lia.
+      + right. assert (r_expiry r < t1).
+        { eapply grant_respects_holder; try eassumption. lia. congruence. }
+        lia.
+    - left. exists r. subst d'. split. apply in_upsert. right. split. assumption. simpl. congruence. auto. }
+  split; [eapply alloc_preserves_inv; eassumption|].
+  destruct lost.
+  - (* reply lost: the log is unchanged *)
+    split; [assumption|]. split; [assumption|]. split; [|assumption].
+    intros c x g G. apply (Old c x g G). auto.
+  - split; [constructor; [simpl; lia|assumption]|]. split; [assumption|]. split.
+    + intros c x g G. simpl in G.
+      destruct (bytes_eqb (o_client o) c && (ip =? x)) eqn:B.
+      * inversion G; subst g. apply andb_true_iff in B. destruct B as [B1 B2].
+        apply bytes_eqb_eq in B1. apply N.eqb_eq in B2. subst c x.
+        left. exists (new_row o ip t2 s). subst d'. split. apply in_upsert. left. reflexivity.
+        split. reflexivity. split. reflexivity. simpl. lia.
+      * (* an older grant to another (client, address) pair *)
+        destruct (C _ _ _ G) as [[r [R1 [R2 [R3 R4]]]]|G4]; [|right; lia].
+        destruct (N.eq_dec x ip) as [E|E].
+        -- rewrite E in *. clear E. rewrite N.eqb_refl in B. rewrite andb_true_r in B. apply bytes_eqb_neq in B.
+           right. assert (r_expiry r < t1).
+           { eapply grant_respects_holder; try eassumption. lia. congruence. }
+           lia.
+        -- left. exists r. subst d'. split. apply in_upsert. right. split. assumption. simpl. congruence. auto.
+    + intros a b x t NEq [Ha Hb].
+      apply holds_cons in Ha. apply holds_cons in Hb. simpl in Ha, Hb.
+      destruct Ha as [[A1 [A2 [A3 A4]]]|Ha]; destruct Hb as [[B1 [B2 [B3 B4]]]|Hb].
+      * congruence.
+      * subst x. eapply (old_holder_expired_l M now d log o t1 t2 ip s k d' b t); eauto. congruence.
+      * subst x. eapply (old_holder_expired_l M now d log o t1 t2 ip s k d' a t); eauto. congruence.
+      * exact (N a b x t NEq (conj Ha Hb)).
+Qed.
+
+Lemma run_lossy_linv : forall M h now d log d' log',
+  wf_lossy_from M now h = true -> LInv M now d log ->
+  run_lossy_from (d, log) h = Some (d', log') -> exists now', LInv M now' d' log'.
+Proof.
+  induction h as [|[e lost] h IH]; intros now d log d' log' W LI H; simpl in H.
+  - inversion H; subst. exists now. assumption.
+  - destruct e as [o t1 t2 a|dd|]; simpl in H, W.
+    + destruct (alloc_ok d o t1 t2 a) as [d1|] eqn:E; [|discriminate].
+      repeat (apply andb_true_iff in W; destruct W as [W ?]).
+      repeat match goal with X : (_ <=? _) = true |- _ => apply N.leb_le in X end.
+      repeat match goal with X : (_ <? _) = true |- _ => apply N.ltb_lt in X end.
+      repeat match goal with X : (_ =? _) = true |- _ => apply N.eqb_eq in X end.
+      eapply (IH t2); [eassumption| |exact H].
+      destruct a as [ip s k| | | |].
+      * apply (grant_step_l M now d log o t1 t2 ip s k d1 lost); try assumption.
+      * apply refused_store in E; [|congruence]. subst d1.
+        destruct lost; apply (linv_later M now); try lia; assumption.
+      * simpl in E. discriminate.
+      * simpl in E. discriminate.
+      * apply refused_store in E; [|congruence]. subst d1.
+        destruct lost; apply (linv_later M now); try lia; assumption.
+    + destruct lost; (eapply (IH (now + dd)); [eassumption| |exact H]; apply (linv_later M now); [lia|assumption]).
+    + destruct lost; (eapply (IH now); eassumption).
+Qed.
+
+Lemma linv_init : forall M, LInv M 0 [] [].
+Proof.
+  intros M. repeat split.
+  - constructor.
+  - constructor.
+  - destruct H.
+  - destruct H.
+  - intros c x g G. simpl in G. discriminate.
+  - intros a b x t _ [[g [G _]] _]. simpl in G. discriminate.
+Qed.
+
+Lemma no_double_allocation_lossy : forall M h, wf_lossy M h = true ->
+  forall d log, run_lossy h = Some (d, log) ->
+  forall a b x t, a <> b -> ~ (holds log a x t /\ holds log b x t).
+Proof.
+  intros M h W d log H.
+  destruct (run_lossy_linv M h 0 [] [] d log W (linv_init M) H) as [now' [_ [_ [_ [_ N]]]]].
+  exact N.
 Qed.
 
 (* without lost replies the lossy run is the ordinary one *)
